@@ -45,11 +45,16 @@ def shapes():
     out.append((True, [('tuple', 1, 'T'), ('tuple', 1, 'T')]))
     out.append((False, [('tuple', 2, 'Ru')]))
     out.append((False, [('named', 3, 'uRu')]))
+    # MANY fields (more than ten: positions with two digits): each field keeps its own place
+    out.append((False, [('tuple', 12, 'RRRRRRRRRRRR')]))
+    out.append((False, [('named', 11, 'RuRRRRRRRRR')]))
+    out.append((True, [('tuple', 12, 'RRuRRRRRRRRR'), ('named', 11, 'RRRRRRRRRRR'), ('unit', 0)]))
+    out.append((True, [('named', 12, 'TRRRRRRRRRuT')]))
     return [(e, [v if len(v) == 3 else (v[0], v[1], 'R' * v[1]) for v in vs]) for e, vs in out]
 
 
 # names of named fields: pairs that differ only by an underscore or by case (bindings derived from them must not collide)
-FNAMES = ['id', '_id', 'x', 'X', 'foo_bar', 'fooBar', 'f6', 'f7']
+FNAMES = ['id', '_id', 'x', 'X', 'foo_bar', 'fooBar', 'f6', 'f7', 'f8', 'F8', 'f10', 'f_10']
 
 
 def fields_s(kind, n, pat=None):
